@@ -1138,6 +1138,8 @@ fn hyphen<'s>(input: &mut &'s str) -> PResult<Option<BoundSet>, SemverParseError
             }),
             partial => Predicate::Including(partial.into()),
         };
+        // A wildcard on the left of the hyphen puts no lower limit, as in node-semver.
+        let lower = lower.filter(|partial| partial.major.is_some());
         let bounds = if let Some(lower) = lower {
             BoundSet::new(
                 Bound::Lower(Predicate::Including(lower.into())),
